@@ -1104,14 +1104,14 @@ Proof.
     destruct (match cst c with ABORTING => csent c | _ => false end); [discriminate|].
     destruct (slot_is c KEnd SApplied); [discriminate|].
     destruct (cst c); try (destruct (is_niln (accepted c)); discriminate).
-    destruct (owner_is _ _); discriminate.
+    destruct (owner_is _ _ && _); discriminate.
   - (* RAddParts: obligation 3 only *)
     destruct v; [|simpl; discriminate]. unfold ob.
     destruct (get s i) as [c|]; [|discriminate].
-    destruct (is_ongoing (genv s)); [destruct (owner_is _ _) | destruct (cowned c)]; discriminate.
+    destruct (is_ongoing (genv s)); [destruct (owner_is _ _ || _) | destruct (cowned c)]; discriminate.
   - destruct v; [|simpl; discriminate]. unfold ob.
     destruct (get s i) as [c|]; [|discriminate].
-    destruct (is_ongoing (genv s)); [destruct (owner_is _ _) | destruct (cowned c)]; discriminate.
+    destruct (is_ongoing (genv s)); [destruct (owner_is _ _ || _) | destruct (cowned c)]; discriminate.
   - (* RToc *)
     destruct v; [|simpl; discriminate]. unfold step in S. unfold ob.
     destruct (get s i) as [c|] eqn:Hg; [|discriminate]. destruct (get_some _ _ _ Hg) as (Hn & _).
